@@ -92,7 +92,7 @@ class Engine:
     def __init__(self, prop, hname, fn, config, opts=None):
         self.prop, self.hname, self.fn, self.config = prop, hname, fn, dict(config)
         o = dict(timeout_ms=10000, max_paths=2000, max_decisions=5000, validate=True,
-                 abstract=False, seed=0, replay_dir=None, budget_s=None)
+                 abstract=False, seed=0, replay_dir=None, budget_s=None, rint_lemmas=("L1", "L2", "L4"))
         o.update(opts or {})
         self.o = o
         self.stats = dict(paths=0, decisions=0, forks=0, solver_calls=0, solver_s=0.0, obligations=0,
@@ -116,6 +116,11 @@ class Engine:
         self.prefix = list(prefix)
         self.trace = []
         self.asserts = []         # (z3bool, rep_atom or None, strict z3bool or None)
+        self.lin_memo = {}
+        self.lin_keep = []        # keeps abstracted sub-terms alive so that ast ids stay unique
+        self.decided = {}         # z3 ast id of a simplified condition -> (decision, ast) on this path
+        self.defs = {}            # atom idx -> indices of its definitional axioms in self.asserts
+        self.occ_cache = {}
         self.obligs = []
         self.outputs = {}
         self.tokens = []
@@ -129,14 +134,89 @@ class Engine:
         if at is None:
             at = len(S.REG.atoms) - 1
         self.asserts.append((ax, at, None))
+        self.defs.setdefault(at, []).append(len(self.asserts) - 1)
 
     # ---------------------------------------------------------------- solver
-    def _select(self, atoms):
-        if not atoms:
-            return [a for a in self.asserts]
-        REG = S.REG
-        roots = {REG.find(a) for a in atoms}
-        return [a for a in self.asserts if a[1] is None or REG.find(a[1]) in roots]
+    def _occ(self, i):
+        """atoms occurring in assertion i (from its z3 term: names of uninterpreted constants)"""
+        o = self.occ_cache.get(i)
+        if o is None:
+            o = self.occ_cache[i] = self._atoms_of_term(self.asserts[i][0])
+        return o
+
+    def _atoms_of_term(self, t):
+        by_name = S.REG.by_name
+        out = set()
+        seen = set()
+        stack = [t]
+        while stack:
+            x = stack.pop()
+            i = x.get_id()
+            if i in seen:
+                continue
+            seen.add(i)
+            if z3.is_const(x) and x.decl().kind() == z3.Z3_OP_UNINTERPRETED:
+                a = by_name.get(x.decl().name())
+                if a is not None:
+                    out.add(a.idx)
+            else:
+                stack.extend(x.children())
+        # indicator atoms are If-terms (no constant of their own): their condition's atoms were collected above
+        return frozenset(out)
+
+    def _select(self, atoms, extra=()):
+        """relevance closure: path-condition facts that share an atom (transitively) with the goal, and the
+        definitional axioms of exactly those atoms that occur in what has been selected.  Dropped facts are over
+        disjoint atoms or are conservative definitions of unused symbols, so sat/unsat of the selection is that of
+        the whole (radicands are assumed non-negative where a root is taken)."""
+        needed = set()
+        for t in extra:
+            needed |= self._atoms_of_term(t)
+        if not needed and not extra:
+            return list(self.asserts)
+        defidx = set()
+        for lst in self.defs.values():
+            defidx.update(lst)
+        chosen = set()
+        frontier = set(needed)
+        n = len(self.asserts)
+        pcs = [i for i in range(n) if i not in defidx]
+        changed = True
+        while changed:
+            changed = False
+            for a in list(frontier):
+                for i in self.defs.get(a, ()):
+                    if i not in chosen:
+                        chosen.add(i)
+                        new = self._occ(i) - needed
+                        if new:
+                            needed |= new
+                            frontier |= new
+                            changed = True
+            frontier = set()
+            for i in pcs:
+                if i in chosen:
+                    continue
+                o = self._occ(i)
+                if o & needed:
+                    chosen.add(i)
+                    new = o - needed
+                    if new:
+                        needed |= new
+                        frontier |= new
+                    changed = True
+            if frontier:
+                changed = True
+            else:
+                frontier = set()
+                # definitional axioms for atoms that became needed through pc facts
+                for a in needed:
+                    for i in self.defs.get(a, ()):
+                        if i not in chosen:
+                            frontier.add(a)
+                if frontier:
+                    changed = True
+        return [self.asserts[i] for i in sorted(chosen)]
 
     def _solve(self, zs, timeout_ms=None):
         """-> ('sat'|'unsat'|'unknown', model or None).  Portfolio:
@@ -147,6 +227,14 @@ class Engine:
         self.stats["solver_calls"] += 1
         res, model = "unknown", None
         try:
+            # (0) linear abstraction: every non-linear monomial becomes an independent real; unsat there is unsat
+            if self.o.get("linear_first", True):
+                lz = [self._lin(zz) for zz in zs]
+                r0, _ = self._run(z3.SolverFor("QF_LRA") if not self.has_int else z3.Solver(), lz, min(timeout_ms // 4, 5000))
+                if r0 == "unsat":
+                    self.stats["by_linear_abstraction"] = self.stats.get("by_linear_abstraction", 0) + 1
+                    self.stats["solver_s"] += time.time() - t
+                    return "unsat", None
             if self.has_int:
                 sub = [(a.z, z3.Real(a.name + "!relaxed")) for a in S.REG.atoms if a.kind == "ivar"]
                 rz = [z3.substitute(zz, *sub) for zz in zs]
@@ -166,8 +254,52 @@ class Engine:
                 res, model = r1, m1
         except z3.Z3Exception as e:      # pragma: no cover
             res = "unknown"
+            if os.environ.get("SYMX_DEBUG"):
+                print("Z3Exception", e); traceback.print_exc()
         self.stats["solver_s"] += time.time() - t
         return res, model
+
+    def _lin(self, t):
+        memo = self.lin_memo
+        stack = [t]
+        while stack:
+            x = stack[-1]
+            i = x.get_id()
+            if i in memo:
+                stack.pop()
+                continue
+            ch = x.children()
+            todo = [c for c in ch if c.get_id() not in memo]
+            if todo:
+                stack.extend(todo)
+                continue
+            stack.pop()
+            if not ch:
+                memo[i] = (x, x)
+                continue
+            nch = [memo[c.get_id()][1] for c in ch]
+            k = x.decl().kind()
+            if k == z3.Z3_OP_MUL:
+                nums = [c for c in nch if z3.is_rational_value(c) or z3.is_int_value(c)]
+                oth = [c for c in nch if not (z3.is_rational_value(c) or z3.is_int_value(c))]
+                if len(oth) >= 2:
+                    name = "mono!" + "_".join(str(v) for v in sorted(c.get_id() for c in oth))
+                    v = z3.Real(name) if x.sort().kind() == z3.Z3_REAL_SORT else z3.Int(name)
+                    self.lin_keep.append(oth)
+                    r = z3.Product(*(nums + [v])) if nums else v
+                else:
+                    r = z3.Product(*nch) if len(nch) > 1 else nch[0]
+            elif k == z3.Z3_OP_POWER or (k == z3.Z3_OP_DIV and not (z3.is_rational_value(nch[1]) or z3.is_int_value(nch[1]))):
+                name = "nl!" + "_".join(str(c.get_id()) for c in nch) + ("p" if k == z3.Z3_OP_POWER else "d")
+                self.lin_keep.append(nch)
+                r = z3.Real(name)
+            else:
+                try:
+                    r = x.decl()(*nch)
+                except Exception:
+                    r = x
+            memo[i] = (x, r)
+        return memo[t.get_id()][1]
 
     @staticmethod
     def _run(s, zs, timeout_ms):
@@ -182,7 +314,7 @@ class Engine:
         return "unknown", None
 
     def check(self, extra, atoms=frozenset(), strict=False, full=False, timeout_ms=None):
-        sel = self.asserts if full else self._select(atoms)
+        sel = self.asserts if full else self._select(atoms, extra)
         zs = [(a[2] if (strict and a[2] is not None) else a[0]) for a in sel]
         zs.extend(extra)
         return self._solve(zs, timeout_ms)
@@ -202,6 +334,10 @@ class Engine:
             return True
         if z3.is_false(simp):
             return False
+        zid = simp.get_id()
+        hit = self.decided.get(zid)
+        if hit is not None:
+            return hit[0]
         self.stats["decisions"] += 1
         pos = len(self.trace)
         if pos < len(self.prefix):
@@ -230,9 +366,14 @@ class Engine:
                 raise PathAbort("infeasible path condition")
         self.trace.append(take)
         self._add_pc(sb, take)
+        self.decided[zid] = (take, simp)
+        nz = z3.simplify(z3.Not(simp))
+        self.decided[nz.get_id()] = (not take, nz)
         return take
 
     def assume(self, sb):
+        if hasattr(sb, "ok") and hasattr(sb, "why"):
+            sb = bool(sb)
         if isinstance(sb, (bool, np.bool_)):
             if not sb:
                 raise PathAbort("assumption is constant false")
@@ -299,25 +440,29 @@ class Engine:
             self.lemmas.add("rint L1: |x - rint(x)| <= 1/2 (instance per rint atom)")
             # L3: |x| <= 1/2 -> rint(x) = 0
             a, b = x <= half, (-x) <= half
-            if isinstance(a, SB) and isinstance(b, SB):
-                self.asserts.append((z3.Implies(z3.And(a.z, b.z), atom.z == 0), atom.idx, None))
+            if "L3" in self.o["rint_lemmas"] and isinstance(a, SB) and isinstance(b, SB):
+                self._on_axiom(z3.Implies(z3.And(a.z, b.z), atom.z == 0), atom.idx)
                 self.lemmas.add("rint L3: |x| <= 1/2 -> rint(x) = 0 (instance per rint atom)")
             # L4: rint(-x) = -rint(x) for structurally negated arguments
             nk = (-x).key()
             for (fn2, r2, x2) in self.round_atoms:
                 if fn2 == "rint" and x2.key() == nk:
-                    self.asserts.append((atom.z == -S.REG.atoms[_atom_of(r2)].z, atom.idx, None))
+                    self._on_axiom(atom.z == -S.REG.atoms[_atom_of(r2)].z, atom.idx)
                     self.lemmas.add("rint L4: rint(-x) = -rint(x) (structural instances)")
-            # L2: integer shifts declared by the harness
+            # L2: integer shifts declared by the harness; congruence for provably equal arguments
             for (fn2, r2, x2) in self.round_atoms:
                 if fn2 == "rint":
                     self._shift_instance(atom, r, x, r2, x2)
+                    same = (x == x2) if "cong" in self.o["rint_lemmas"] else None
+                    if isinstance(same, SB) and (x.atomset() & x2.atomset()):
+                        S.REG.union([atom.idx, *x.atomset(), *x2.atomset(), *r2.atomset()])
+                        self._on_axiom(z3.Implies(same.z, atom.z == S.REG.atoms[_atom_of(r2)].z), atom.idx)
         else:
             cs = [r <= x, x < r + 1]
             self.lemmas.add("floor: floor(x) <= x < floor(x)+1 (instance per floor atom)")
         for c in cs:
             if isinstance(c, SB):
-                self.asserts.append((c.z, atom.idx, None))
+                self._on_axiom(c.z, atom.idx)
         self.round_atoms.append((fn, r, x))
 
     def _shift_instance(self, atom, r, x, r2, x2):
@@ -337,7 +482,7 @@ class Engine:
         if isinstance(t1, bool) or isinstance(t2, bool):
             return
         S.REG.union([atom.idx, *x2.atomset(), *r2.atomset(), *d.atomset()])
-        self.asserts.append((z3.Implies(z3.Not(z3.Or(t1.z, t2.z)), atom.z == (r2 + d).to_z3()), atom.idx, None))
+        self._on_axiom(z3.Implies(z3.Not(z3.Or(t1.z, t2.z)), atom.z == (r2 + d).to_z3()), atom.idx)
         self.lemmas.add("rint L2: no tie & k integer -> rint(x+k) = rint(x)+k (instances for integer-valued differences)")
 
     def find_round(self, fn, x: SR):
@@ -416,7 +561,16 @@ class Engine:
                 self.samples.append(dict(obligation=name, config=self.config,
                                          verdict="normal form 0 != 0; raw identity query: " + r))
             return
-        r, m = self.check([z3.Not(cond.z)], cond.atoms)
+        hit = self.decided.get(z3.simplify(cond.z).get_id())
+        if hit is not None and hit[0]:
+            # the obligation is literally a conjunct of the path condition: a two-clause query
+            r, m = self._solve([hit[1], z3.Not(cond.z)], 2000)
+            if r == "unsat":
+                self.stats["by_path_condition"] = self.stats.get("by_path_condition", 0) + 1
+            else:
+                r, m = self.check([z3.Not(cond.z)], cond.atoms)
+        else:
+            r, m = self.check([z3.Not(cond.z)], cond.atoms)
         if r == "unsat":
             self.stats["discharged"] += 1
             if len(self.samples) < 6:
@@ -425,6 +579,14 @@ class Engine:
                                          formula=(txt[:300] + " ...") if len(txt) > 300 else txt))
             return
         if r == "unknown":
+            if os.environ.get("SYMX_DEBUG"):
+                sel = self._select(cond.atoms, [z3.Not(cond.z)])
+                s = z3.Solver()
+                for a in sel:
+                    s.add(a[0])
+                s.add(z3.Not(cond.z))
+                with open(os.environ["SYMX_DEBUG"], "w") as fh:
+                    fh.write(s.to_smt2())
             self.stats["undecided"] += 1
             self.undecided_names.append(f"{name} @ {self.config}")
             return
@@ -536,14 +698,25 @@ class Engine:
         if aborted:
             return
         # model of the path condition (strict variant preferred: interior point)
-        r, m = self.check([], full=True, strict=True)
+        # rint/floor symbols are real-valued in the encoding; for the witness ask for integer values first
+        ints = []
+        for (fn, rr, xx) in self.round_atoms:
+            z = S.REG.atoms[_atom_of(rr)].z
+            ints.append(z3.Or(*[z == k for k in (-2, -1, 0, 1, 2)]))
+        r, m = ("unknown", None)
+        vt = self.o.get("validate_timeout_ms", 3000)
+        if ints:
+            r, m = self.check(ints, full=True, strict=True, timeout_ms=vt)
         if r != "sat":
-            r, m = self.check([], full=True)
+            r, m = self.check([], full=True, strict=True, timeout_ms=vt)
+        if r != "sat":
+            r, m = self.check([], full=True, timeout_ms=vt)
         if r != "sat":
             if raised is not None:
                 self.errors.append(dict(kind="exception-on-undecided-path", config=self.config,
                                         msg=repr(raised), tb=raised_tb))
             self.stats["validation_skipped"] += 1
+            self.stats["skip_no_model"] = self.stats.get("skip_no_model", 0) + 1
             return
         inputs = self.inputs_from_model(m)
         if raised is not None:
